@@ -3,7 +3,7 @@
 TIERS = {
     "configs": {
         "quick": {"variants": 8, "runs_per_profile": 40, "budget_s": 85, "min_budget": 100},
-        "thorough": {"variants": 64, "runs_per_profile": 160, "budget_s": 560, "min_budget": 150},
+        "thorough": {"variants": 24, "runs_per_profile": 64, "budget_s": 560, "min_budget": 150},
     },
     "getter": {
         "quick": {"runs": 640, "budget_s": 70, "min_budget": 150},
